@@ -243,7 +243,7 @@ def _curved(chk, shapes, cls_name):
                 chk.prove(f"{tag}:similarity[{t}]", fkey, p.pc, sp.And(centre_same, *sim),
                           replay=_replay_similarity(cls_name, name))
         if n_ret == 0:
-            chk.errors.append(f"{tag}: no returning path (vacuous)")
+            chk.record(f"{tag}:has_an_accepting_path", fkey, "unknown", "path-enumeration", detail="no path of the setter returns under the contract's pre-state", model={})
         if used_rescale:
             if not _homogeneity(chk, shapes, cls_name, name, _getter_owner(cls, name)):
                 chk.errors.append(f"{tag}: homogeneity lemma has no path")
